@@ -213,6 +213,13 @@ def run(chk):
     if chk.want("R13.10"):
         from ..inherit import inherit
         inherit(chk, "R13.10", "c04", ["R04.2"])
+    chk.rule("R13.11", "the translated copies a supercell is made of are copies: the cached unit-cell molecules are not moved in place by the "
+                       "expansion (a shallow copy in Molecule.translated shares its position array with the original, so all images coincide) "
+                       "(= C14 R14.3 for the supercell builders)", 2)
+    if chk.want("R13.11"):
+        from ..inherit import inherit
+        inherit(chk, "R13.11", "c14", ["R14.3"], functions={"Crystal.as_P1_supercell", "Crystal.to_translational_symmetry", "Crystal.as_P1",
+                                                          "Crystal.molecular_shell", "Crystal.symmetry_unique_dimers"})
     chk.assume("coincidence of atoms between the two descriptions (geometry) is not decided")
     chk.rule("R13.7", "a cell built from vectors keeps them: direct is the given matrix, inverse its numerical inverse, and coordinates are converted "
                       "with those matrices (= C12 R12.3, R12.5); the trigonal switch and the frame argument of R13.4 rest on it", 8)
